@@ -59,6 +59,8 @@ type conn struct {
 	initStep   int8             // number of steps required for redis connection initialization
 	initStatus InitializeStatus // redis connection initialization status
 	connType   ConnType         // client or server
+
+	closeAfterFlush bool // QUIT arrived behind pending requests: close once the queue is flushed
 }
 
 func newTCPConn(fd int, el *eventloop, localAddr, remoteAddr net.Addr, connType ConnType, status InitializeStatus, isSlave bool) (c *conn) {
